@@ -4,13 +4,14 @@ use crate::support::*;
 use educe::Educe;
 use core::cmp::Ordering;
 #[derive(Educe)]
-#[educe(PartialEq, Eq, PartialOrd)]
-pub enum T { B }
+#[repr(i64)]
+#[educe(Ord, PartialEq, PartialOrd, Eq)]
+pub enum T { B(i64, Option<u8>) = 70000, A { #[educe(PartialOrd(rank = "-1"))] state: &'static u8, builder: i64 } }
 
-pub fn values() -> Vec<T> { vec![T::B] }
-pub fn show(x: &T) -> String { #[allow(unused_variables)] match x { T::B => format!("B()") } }
-pub fn o_disc(x: &T) -> i128 { match x { T::B => 0 } }
-pub fn o_pcmp(a: &T, b: &T) -> Option<Ordering> { match (a, b) { (T::B, T::B) => {  Some(Ordering::Equal) } } }
+pub fn values() -> Vec<T> { vec![T::B(-5, None), T::B(-5, Some(0)), T::B(-5, Some(255)), T::B(0, None), T::B(0, Some(0)), T::B(0, Some(255)), T::B(9, None), T::B(9, Some(0)), T::B(9, Some(255)), T::A { state: &3u8, builder: -5 }, T::A { state: &3u8, builder: 0 }, T::A { state: &3u8, builder: 9 }, T::A { state: &200u8, builder: -5 }, T::A { state: &200u8, builder: 0 }, T::A { state: &200u8, builder: 9 }] }
+pub fn show(x: &T) -> String { #[allow(unused_variables)] match x { T::B(p0, p1) => format!("B({},{})", sv(p0), sv(p1)), T::A { state: p0, builder: p1 } => format!("A({},{})", sv(p0), sv(p1)) } }
+pub fn o_disc(x: &T) -> i128 { match x { T::B(_, _) => 70000, T::A { state: _, builder: _ } => 70001 } }
+pub fn o_cmp(a: &T, b: &T) -> Ordering { match (a, b) { (T::B(a0, a1), T::B(b0, b1)) => { let c = ::core::cmp::Ord::cmp(a0, b0); if c != Ordering::Equal { return c; } let c = ::core::cmp::Ord::cmp(a1, b1); if c != Ordering::Equal { return c; } Ordering::Equal }, (T::A { state: a0, builder: a1 }, T::A { state: b0, builder: b1 }) => { let c = ::core::cmp::Ord::cmp(a1, b1); if c != Ordering::Equal { return c; } let c = ::core::cmp::Ord::cmp(a0, b0); if c != Ordering::Equal { return c; } Ordering::Equal }, _ => o_disc(a).cmp(&o_disc(b)) } }
 #[repr(C)] pub struct Wrap { pub pre: u8, pub x: T, pub post: [u8; 9] }
 pub fn wrap(i: usize, n: u8) -> Wrap { Wrap { pre: n, x: values().swap_remove(i), post: [n; 9] } }
-pub fn run(out: &mut Out) { let vs = values(); for (i, a) in vs.iter().enumerate() { for (j, b) in vs.iter().enumerate() { let e = o_pcmp(a, b); let g = ::core::cmp::PartialOrd::partial_cmp(a, b); out.check(g == e, "ordlayout_4", "partial_cmp", || format!("partial_cmp({}, {}) = {:?} expected {:?}", show(a), show(b), g, e)); for n in [0u8, 1, 0x7f, 0x80, 0xff] { let wa = wrap(i, n); let wb = wrap(j, !n); let g = ::core::cmp::PartialOrd::partial_cmp(&wa.x, &wb.x); let e = o_pcmp(a, b); out.check(g == e, "ordlayout_4", "cmp_neighbours", || format!("cmp({}, {}) with neighbour bytes {} = {:?} expected {:?}", show(a), show(b), n, g, e)); } } } }
+pub fn run(out: &mut Out) { let vs = values(); for (i, a) in vs.iter().enumerate() { for (j, b) in vs.iter().enumerate() { let e = o_cmp(a, b); let g = ::core::cmp::Ord::cmp(a, b); out.check(g == e, "ordlayout_4", "cmp", || format!("cmp({}, {}) = {:?} expected {:?}", show(a), show(b), g, e)); let g2 = ::core::cmp::PartialOrd::partial_cmp(a, b); out.check(g2 == Some(e), "ordlayout_4", "partial_is_some_cmp", || format!("partial_cmp({}, {}) = {:?} expected Some({:?})", show(a), show(b), g2, e)); for n in [0u8, 1, 0x7f, 0x80, 0xff] { let wa = wrap(i, n); let wb = wrap(j, !n); let g = ::core::cmp::Ord::cmp(&wa.x, &wb.x); let e = o_cmp(a, b); out.check(g == e, "ordlayout_4", "cmp_neighbours", || format!("cmp({}, {}) with neighbour bytes {} = {:?} expected {:?}", show(a), show(b), n, g, e)); } } } }
